@@ -23,6 +23,10 @@ enum Fault {
     CoordNan(usize),
     CoordInf(usize),
     VertexUuidNil(usize),
+    /// vertex a gets the UUID of vertex b (raw: the UUID table keeps a's stale entry)
+    VertexUuidDuplicate(usize, usize),
+    /// cell a gets the UUID of cell b
+    CellUuidDuplicate(usize, usize),
     CellDropVertex(usize),
     CellExtraVertex(usize),
     CellRepeatVertex(usize, usize),
@@ -74,6 +78,24 @@ fn inject<K: Kernel<D, Scalar = f64>, const D: usize>(dt: &mut DtI<K, D>, f: &Fa
         Fault::VertexUuidNil(v) => {
             let Some(k) = vk(*v) else { return false };
             tds.get_vertex_by_key_mut(k).unwrap().verif_set_uuid_raw(uuid::Uuid::nil());
+            true
+        }
+        Fault::VertexUuidDuplicate(a, b) => {
+            let (Some(ka), Some(kb)) = (vk(*a), vk(*b)) else { return false };
+            if ka == kb {
+                return false;
+            }
+            let u = tds.get_vertex_by_key(kb).unwrap().uuid();
+            tds.get_vertex_by_key_mut(ka).unwrap().verif_set_uuid_raw(u);
+            true
+        }
+        Fault::CellUuidDuplicate(a, b) => {
+            let (Some(ka), Some(kb)) = (ck(*a), ck(*b)) else { return false };
+            if ka == kb {
+                return false;
+            }
+            let u = tds.get_cell(kb).unwrap().uuid();
+            tds.get_cell_by_key_mut(ka).unwrap().verif_set_uuid_raw(u);
             true
         }
         Fault::CellDropVertex(c) => {
@@ -292,6 +314,14 @@ fn catalogue<const D: usize>(nv: usize, nc: usize) -> Vec<Fault> {
         for w in 0..nv {
             if v != w {
                 f.push(Fault::MergeVertices(v, w));
+                f.push(Fault::VertexUuidDuplicate(v, w));
+            }
+        }
+    }
+    for c in 0..nc {
+        for e in 0..nc {
+            if c != e {
+                f.push(Fault::CellUuidDuplicate(c, e));
             }
         }
     }
@@ -799,7 +829,7 @@ fn main() {
     let cov = json!({
         "evaluations": inj + cn.subjects.load(Ordering::Relaxed),
         "distinct_nontrivial": hits[1] + hits[2] + hits[3] + hits[4],
-        "rule": "every fault of the catalogue (27 kinds: non-finite coordinate, nil uuid, cell with missing / extra / repeated vertex, short neighbour buffer, uuid-map entry removed / redirected, cell referencing a removed vertex, dangling / wrong incident cell, duplicate cell, neighbour slot cleared / invented / wrong cell / dangling / rotated, vertex slots swapped with and without neighbour slots, raw cell removal, isolated vertex, two vertices identified, cell vertex replaced, vertex moved onto / across the opposite facet / far away) at every location of every batch-constructed subject (all three guarantees on D=2,3), plus a strided set of fault pairs on complexes with <= 4 cells; non-trivial = the reference assigns an owning level (lowest violated level)",
+        "rule": "every fault of the catalogue (29 kinds: duplicate vertex / cell UUID, non-finite coordinate, nil uuid, cell with missing / extra / repeated vertex, short neighbour buffer, uuid-map entry removed / redirected, cell referencing a removed vertex, dangling / wrong incident cell, duplicate cell, neighbour slot cleared / invented / wrong cell / dangling / rotated, vertex slots swapped with and without neighbour slots, raw cell removal, isolated vertex, two vertices identified, cell vertex replaced, vertex moved onto / across the opposite facet / far away) at every location of every batch-constructed subject (all three guarantees on D=2,3), plus a strided set of fault pairs on complexes with <= 4 cells; non-trivial = the reference assigns an owning level (lowest violated level)",
         "exhaustive": true,
         "subjects": cn.subjects.load(Ordering::Relaxed),
         "shapes_judged": cn.shapes.load(Ordering::Relaxed),
